@@ -116,6 +116,9 @@ func scenarios(tier string) []*Scenario {
 	// mocks sharing method objects: the same interface twice and an embedded interface next to its embedder
 	add(Scenario{Args: []string{"Base", "Emb:EmbeddedMock", "Base:BaseTwo"}})
 	add(Scenario{Args: []string{"Emb:EmbeddedMock", "Base", "Schema", "Schema:SecondSchemaMock"}, Stub: true, Resets: true})
+	// interfaces whose signatures mention no source-package type: with -skip-ensure nothing may import the source package
+	add(Scenario{Args: []string{"Plain", "Empty"}, PkgMode: "other", SkipEnsure: true})
+	add(Scenario{Args: []string{"Plain"}, PkgMode: "other", SkipEnsure: true, Stub: true, Resets: true, Fmt: "noop"})
 	// alias-declared interface literals with same-named methods (shared full method names)
 	add(Scenario{Args: []string{"AliasA", "AliasB"}})
 	add(Scenario{Args: []string{"AliasB", "AliasA"}, Stub: true, SkipEnsure: true, Resets: true})
